@@ -1,0 +1,305 @@
+//! Verification hooks (compiled only with `--cfg walrus_verif`; see /verif/DESIGN.md section 5).
+//!
+//! Everything here is inert unless a harness installs a sink, a crash point, a fault plan, a
+//! scheduler callback or a clock override. Nothing in this module changes engine behaviour on
+//! its own.
+
+use std::cell::Cell;
+use std::sync::atomic::{AtomicBool, AtomicU64, Ordering};
+use std::sync::{Mutex, OnceLock, RwLock};
+
+/// One durable mutation (or sync) the engine is about to perform.
+#[derive(Clone, Debug)]
+pub struct IoRec {
+    /// Sequence number among *counted* events (0 for events of uncounted threads).
+    pub seq: u64,
+    pub kind: &'static str,
+    pub path: String,
+    /// Second path (rename target) or empty.
+    pub path2: String,
+    pub off: u64,
+    pub len: u64,
+    /// Bytes written (only when recording with data).
+    pub data: Option<Vec<u8>>,
+    pub counted: bool,
+}
+
+static IO_COUNTER: AtomicU64 = AtomicU64::new(0);
+static CRASH_AT: AtomicU64 = AtomicU64::new(0);
+/// Bit i set => entry i of the io_uring batch that is the crash event is written before exiting.
+static CRASH_URING_MASK: AtomicU64 = AtomicU64::new(0);
+static RECORD: AtomicBool = AtomicBool::new(false);
+static RECORD_DATA: AtomicBool = AtomicBool::new(false);
+static CLOCK_OVERRIDE_MS: AtomicU64 = AtomicU64::new(0);
+
+thread_local! {
+    static COUNTED: Cell<bool> = const { Cell::new(false) };
+}
+
+fn io_log() -> &'static Mutex<Vec<IoRec>> {
+    static LOG: OnceLock<Mutex<Vec<IoRec>>> = OnceLock::new();
+    LOG.get_or_init(|| Mutex::new(Vec::new()))
+}
+
+/// Events of the calling thread are numbered and eligible as crash points.
+pub fn count_this_thread(on: bool) {
+    COUNTED.with(|c| c.set(on));
+}
+
+pub fn set_recording(on: bool, with_data: bool) {
+    RECORD.store(on, Ordering::SeqCst);
+    RECORD_DATA.store(with_data, Ordering::SeqCst);
+}
+
+pub fn take_io_log() -> Vec<IoRec> {
+    std::mem::take(&mut *io_log().lock().unwrap())
+}
+
+pub fn io_counter() -> u64 {
+    IO_COUNTER.load(Ordering::SeqCst)
+}
+
+/// Die (`_exit(77)`) immediately *before* performing the k-th counted event (k >= 1; 0 disables).
+pub fn set_crash_at(k: u64, uring_mask: u64) {
+    CRASH_URING_MASK.store(uring_mask, Ordering::SeqCst);
+    CRASH_AT.store(k, Ordering::SeqCst);
+}
+
+fn die() -> ! {
+    unsafe { libc::_exit(77) }
+}
+
+fn note(kind: &'static str, path: &str, path2: &str, off: u64, data: Option<&[u8]>, len: u64) -> bool {
+    let counted = COUNTED.with(|c| c.get());
+    let mut seq = 0;
+    let mut crash = false;
+    if counted {
+        seq = IO_COUNTER.fetch_add(1, Ordering::SeqCst) + 1;
+        let at = CRASH_AT.load(Ordering::SeqCst);
+        crash = at != 0 && seq == at;
+    }
+    if RECORD.load(Ordering::Relaxed) {
+        let keep = RECORD_DATA.load(Ordering::Relaxed);
+        if let Ok(mut log) = io_log().lock() {
+            log.push(IoRec {
+                seq,
+                kind,
+                path: path.to_string(),
+                path2: path2.to_string(),
+                off,
+                len,
+                data: if keep { data.map(|d| d.to_vec()) } else { None },
+                counted,
+            });
+        }
+    }
+    crash
+}
+
+/// Called immediately before a durable mutation or sync.
+pub fn io_event(kind: &'static str, path: &str, off: u64, len: u64) {
+    if note(kind, path, "", off, None, len) {
+        die();
+    }
+}
+
+pub fn io_event_data(kind: &'static str, path: &str, off: u64, data: &[u8]) {
+    if note(kind, path, "", off, Some(data), data.len() as u64) {
+        die();
+    }
+}
+
+pub fn io_event_rename(from: &str, to: &str) {
+    if note("rename", from, to, 0, None, 0) {
+        die();
+    }
+}
+
+/// Called before an io_uring batch of positional writes is submitted. Each write is logged as
+/// its own (uncounted-for-crash) record; the submission as a whole is one counted event. When
+/// that event is the crash point, the subset of writes selected by the mask is performed with
+/// plain `pwrite` and the process exits: the disk state of a kernel that completed exactly
+/// that subset.
+pub fn uring_batch(writes: &[(String, i32, u64, &[u8])]) {
+    let crash = note("uring_submit", "", "", 0, None, writes.len() as u64);
+    if RECORD.load(Ordering::Relaxed) {
+        let keep = RECORD_DATA.load(Ordering::Relaxed);
+        if let Ok(mut log) = io_log().lock() {
+            for (path, _fd, off, data) in writes.iter() {
+                log.push(IoRec {
+                    seq: 0,
+                    kind: "uring_write",
+                    path: path.clone(),
+                    path2: String::new(),
+                    off: *off,
+                    len: data.len() as u64,
+                    data: if keep { Some(data.to_vec()) } else { None },
+                    counted: false,
+                });
+            }
+        }
+    }
+    if crash {
+        let mask = CRASH_URING_MASK.load(Ordering::SeqCst);
+        for (i, (_path, fd, off, data)) in writes.iter().enumerate() {
+            let selected = if i < 64 { (mask >> i) & 1 == 1 } else { false };
+            if selected {
+                unsafe {
+                    libc::pwrite(
+                        *fd,
+                        data.as_ptr() as *const libc::c_void,
+                        data.len(),
+                        *off as libc::off_t,
+                    );
+                }
+            }
+        }
+        die();
+    }
+}
+
+// ---------------------------------------------------------------------------------------------
+// Fault injection
+
+#[derive(Clone, Debug, Default)]
+pub struct FaultPlan {
+    /// site name -> fire on the n-th occurrence (1-based); counters are per site.
+    pub sites: Vec<(String, u64)>,
+}
+
+fn fault_state() -> &'static Mutex<(FaultPlan, Vec<(String, u64)>)> {
+    static S: OnceLock<Mutex<(FaultPlan, Vec<(String, u64)>)>> = OnceLock::new();
+    S.get_or_init(|| Mutex::new((FaultPlan::default(), Vec::new())))
+}
+
+pub fn set_fault_plan(plan: FaultPlan) {
+    let mut g = fault_state().lock().unwrap();
+    g.0 = plan;
+    g.1.clear();
+}
+
+/// True when the installed plan says this occurrence of `site` must fail.
+pub fn fault(site: &str) -> bool {
+    let mut g = match fault_state().lock() {
+        Ok(g) => g,
+        Err(_) => return false,
+    };
+    if g.0.sites.is_empty() {
+        return false;
+    }
+    let n = {
+        let counts = &mut g.1;
+        if let Some(e) = counts.iter_mut().find(|(s, _)| s == site) {
+            e.1 += 1;
+            e.1
+        } else {
+            counts.push((site.to_string(), 1));
+            1
+        }
+    };
+    g.0.sites.iter().any(|(s, k)| s == site && *k == n)
+}
+
+pub fn fault_io(site: &str) -> std::io::Result<()> {
+    if fault(site) {
+        Err(std::io::Error::new(
+            std::io::ErrorKind::Other,
+            format!("injected fault at {}", site),
+        ))
+    } else {
+        Ok(())
+    }
+}
+
+// ---------------------------------------------------------------------------------------------
+// Scheduling points
+
+type SchedFn = Box<dyn Fn(&'static str) + Send + Sync>;
+
+fn sched_hook() -> &'static RwLock<Option<SchedFn>> {
+    static H: OnceLock<RwLock<Option<SchedFn>>> = OnceLock::new();
+    H.get_or_init(|| RwLock::new(None))
+}
+
+pub fn set_sched_hook(f: Option<SchedFn>) {
+    *sched_hook().write().unwrap() = f;
+}
+
+#[inline]
+pub fn sched_point(label: &'static str) {
+    if let Ok(g) = sched_hook().read() {
+        if let Some(f) = g.as_ref() {
+            f(label);
+        }
+    }
+}
+
+// ---------------------------------------------------------------------------------------------
+// Clock
+
+/// Non-zero: `now_millis_str` uses this as the system time in milliseconds.
+pub fn set_clock_override(ms: u64) {
+    CLOCK_OVERRIDE_MS.store(ms, Ordering::SeqCst);
+}
+
+pub fn clock_override() -> Option<u128> {
+    match CLOCK_OVERRIDE_MS.load(Ordering::SeqCst) {
+        0 => None,
+        v => Some(v as u128),
+    }
+}
+
+// ---------------------------------------------------------------------------------------------
+// Reclamation requests (what `flush_check` sent to the deletion channel)
+
+fn reclaim_log() -> &'static Mutex<Vec<String>> {
+    static LOG: OnceLock<Mutex<Vec<String>>> = OnceLock::new();
+    LOG.get_or_init(|| Mutex::new(Vec::new()))
+}
+
+pub fn reclaim_requested(path: &str) {
+    if let Ok(mut g) = reclaim_log().lock() {
+        g.push(path.to_string());
+    }
+}
+
+pub fn take_reclaim_log() -> Vec<String> {
+    std::mem::take(&mut *reclaim_log().lock().unwrap())
+}
+
+// ---------------------------------------------------------------------------------------------
+// Read-only projections of engine state
+
+#[derive(Clone, Debug, Default)]
+pub struct BlockView {
+    pub id: u64,
+    pub offset: u64,
+    pub limit: u64,
+    pub used: u64,
+    pub file: String,
+}
+
+#[derive(Clone, Debug, Default)]
+pub struct TopicView {
+    pub known_to_reader: bool,
+    pub chain: Vec<BlockView>,
+    pub cur_block_idx: u64,
+    pub cur_block_offset: u64,
+    pub tail_block_id: u64,
+    pub tail_offset: u64,
+    pub reads_since_persist: u32,
+    pub hydrated: bool,
+    pub writer: Option<(BlockView, u64)>,
+    /// Persisted cursor (raw index value incl. TAIL_FLAG, offset) as held in memory by WalIndex.
+    pub index: Option<(u64, u64)>,
+    pub count: u64,
+}
+
+#[derive(Clone, Debug, Default)]
+pub struct FileView {
+    pub path: String,
+    pub locked: u16,
+    pub checkpointed: u16,
+    pub total: u16,
+    pub fully_allocated: bool,
+}
